@@ -76,7 +76,7 @@ func hasFail(fs []fail, kind string) bool {
 	return false
 }
 
-var scripts = []string{"killed-replace", "price-drop-extend", "kill-twice-close", "challenge-cycle", "challenge-cycle"}
+var scripts = []string{"killed-replace", "price-drop-extend", "kill-twice-close", "challenge-cycle", "challenge-cycle", "exhaust-write-pool"}
 
 func histKey(h Hist) string {
 	b, _ := json.Marshal(h.Ops)
